@@ -63,6 +63,8 @@ func New(cfg Config) (*Bed, error) {
 		cfg.DefaultLogoutURI = "https://op.example/logged-out"
 	}
 	st := refstore.New(refstore.SigningKeySpec{Kid: "sig1", Alg: jose.SignatureAlgorithm(cfg.SignAlg), Priv: cfg.SignKey.Priv, Pub: cfg.SignKey.Pub})
+	// an issuer function (request-derived issuer): one provider serves several tenants, the storage keeps them apart
+	st.MultiTenant = cfg.IssuerFn != nil
 	b := &Bed{Cfg: cfg, Store: st, CryptoKey: sha256.Sum256([]byte("verif-crypto-key")), SignKey: cfg.SignKey}
 	b.Storage = st.With(cfg.Caps)
 	uc := op.UserCodeBase20
